@@ -194,6 +194,60 @@ def main():
         for st_ in (w.executions(), eng.execution_history):
             for k in list(st_.keys()):
                 del st_[k]
+    # loops that go through Task states: every state catches States.ALL and loops / a Task that always fails and is retried (its own error name, States.ALL,
+    # States.TaskFailed): whatever the Retry and Catch say, the execution is failed with the quota error and its history stops growing
+    def drive(defn, worker, pre, max_steps=400):
+        w.register(ARN, defn)
+        n0 = len(w.trace)
+        w.start_execution(ARN, {})
+        eng = w.instances["i1"].engine
+        steps, filled = 0, False
+        while steps < max_steps:
+            opts = w.enabled()
+            for rq in w.requests:
+                if not rq["answered"]:
+                    dd = worker(rq)
+                    opts.append((rq["seq"], "reply", (rq, dd[0] if isinstance(dd, tuple) else dd)))
+            opts.sort(key=lambda o: o[0])
+            if not opts:
+                pt = w.pending_timers()
+                if not pt:
+                    break
+                w.advance_to(pt[0][0])
+                continue
+            if steps == 3 and not filled:
+                for k in list(eng.execution_history.keys()):
+                    h = eng.execution_history[k]
+                    eng.execution_history[k] = h + [dict(h[-1], id=len(h) + i + 1, previousEventId=len(h) + i) for i in range(pre - len(h))]
+                filled = True
+            w.step(opts[0][1], opts[0][2])
+            steps += 1
+        pubs, term = outcome(n0)
+        hist_len = max([len(v) for v in eng.execution_history.values()] or [0])
+        for rq in w.requests:
+            rq["answered"] = True
+        for st_ in (w.executions(), eng.execution_history):
+            for k in list(st_.keys()):
+                del st_[k]
+        return steps, term, hist_len
+
+    ok_worker = lambda rq: ({"ok": 1},)                                           # noqa: E731
+    bad_worker = lambda rq: {"errorType": "Flaky", "errorMessage": "no"}           # noqa: E731
+    fams = [("every state catches States.ALL and loops", {"StartAt": "S", "States": {"S": {"Type": "Task", "Resource": sim.FN + "f", "Catch": [{"ErrorEquals": ["States.ALL"], "Next": "S"}], "Next": "S"}}}, ok_worker)]
+    for eq in (["Flaky"], ["States.ALL"], ["States.TaskFailed"]):
+        fams.append(("a Task that always fails, Retry %s with a huge MaxAttempts" % eq[0],
+                     {"StartAt": "S", "States": {"S": {"Type": "Task", "Resource": sim.FN + "f", "Retry": [{"ErrorEquals": eq, "MaxAttempts": 99999999, "IntervalSeconds": 1, "BackoffRate": 1}], "Next": "N"},
+                                                 "N": {"Type": "Succeed"}}}, bad_worker))
+    for name, defn, wk in fams:
+        for pre in ([LH - 10] if not thorough else [LH - 12, LH - 10, LH - 3]):
+            steps, term, hist_len = drive(defn, wk, pre)
+            failed = [t for t in term if t[3]["detail"]["status"] == "FAILED"]
+            d = {"point": "se_history_loop", "machine": name, "definition": defn, "prefill": pre, "history_length_at_the_end": hist_len, "steps": steps,
+                 "ended": [(t[3]["detail"]["status"], t[3]["detail"].get("error")) for t in term]}
+            if len(failed) != 1 or failed[0][3]["detail"].get("error") != "States.ExecutionHistoryLimitExceeded" or hist_len > LH + 6:
+                ck.violation("an execution whose history passed %d events was not failed with the history quota (or kept growing): %s" % (LH, json.dumps(d)[:900]), {"case": d})
+            else:
+                record("se_history", hist_len, False, prefill=pre, machine=name)
     shutil.rmtree(tmpd, ignore_errors=True)
 
     # ------------------------------------------------ evaluate
